@@ -664,6 +664,10 @@ def check_cfg(run, lst, ob):
             ctxs.append(fall)
             ctxs.append(boundary_class(tok, nxt))
             if what == "missing":
+                if tok.patch is not None and after_data_ending_patch(
+                        case, tok.patch):
+                    return ("cfg:missing:ft:fall:"
+                            "after-patch-ending-in-data-at-same-place")
                 ctxs.append(missing_ft_context(lst, case, tok, nxt))
         if e[2] == "return" and tok.kind != "ret":
             # observed edges are those of a block's last instruction
@@ -1131,6 +1135,9 @@ def check_functions(run, lst, ob):
         got = name_of.get(owner.get(id(info["block"])))
         if got != tok.fn:
             origin = "patch" if tok.patch is not None else "orig"
+            if tok.patch is not None and got is None and \
+                    after_data_ending_patch(case, tok.patch):
+                origin = "patch:after-patch-ending-in-data-at-same-place"
             viol.append({
                 "key": f"fn:instruction-in-wrong-function:{origin}",
                 "msg": f"{tok.key} at {(si, pos)}: expected {tok.fn} got "
@@ -1165,9 +1172,11 @@ def check_functions(run, lst, ob):
         # a retained zero-sized block (documented) may stay an entry;
         # promotion across a data block deleted in the same rewrite is
         # accepted either way
-        got = sorted(p for p, b in ((ob.blockpos(b), b) for b in fe[fu])
-                     if p is not None and (b.size or p in exp)
-                     and p not in opt)
+        # (positions: a retained zero-sized entry and the promoted block
+        # behind it stand at the same place)
+        got = sorted({p for p, b in ((ob.blockpos(b), b) for b in fe[fu])
+                      if p is not None and (b.size or p in exp)
+                      and p not in opt})
         ctr["entries_compared"] += 1
         if got != exp:
             viol.append({
@@ -1175,6 +1184,33 @@ def check_functions(run, lst, ob):
                     "missing" if set(exp) - set(got) else "extra"),
                 "msg": f"{nme}: expected entry positions {exp} got {got}"})
     return viol, ctr
+
+
+def after_data_ending_patch(case, eid):
+    """was edit eid placed at the boundary at which an earlier-applied patch
+    ended in data bytes (the library then inserts "into" that data block)?"""
+    edits = case["edits"]
+    if not (0 <= eid < len(edits)):
+        return False
+    e = edits[eid]
+    if e.get("op") not in ("ins", "rep"):
+        return False
+    for k, o in enumerate(edits):
+        if k == eid or o.get("op") not in ("ins", "rep") or \
+                o.get("b") != e["b"] or "lines" not in o.get("p", {}):
+            continue
+        if o["i"] + o.get("n", 0) != e["i"] or not (
+                (o["i"], k) < (e["i"], eid)):
+            continue
+        text = []
+        for ln in o["p"]["lines"]:
+            if "sec" in ln:
+                break
+            if "k" in ln:
+                text.append(ln)
+        if text and text[-1]["k"] == "bytes":
+            return True
+    return False
 
 
 def lst_instr_index(lst):
